@@ -181,3 +181,8 @@ Definition is_none {A} (o:option A) : bool := match o with None => true | Some _
 Definition py_lt_opt {R L} (a b:option Z) : ctl R L bool :=
   match a, b with Some x, Some y => Next (x <? y)%Z | _, _ => Raise end.
 Definition py_unopt {R L} (a:option Z) : ctl R L Z := match a with Some x => Next x | None => Raise end.
+
+(* enumerate(l) *)
+Fixpoint py_enumerate_from {A} (i:Z) (l:list A) : list (Z * A) :=
+  match l with [] => [] | a::r => (i, a) :: py_enumerate_from (i + 1)%Z r end.
+Definition py_enumerate {A} (l:list A) : list (Z * A) := py_enumerate_from 0%Z l.
